@@ -153,6 +153,75 @@ fn accept_sweep(alphabet: Vec<K>, min_len: usize, max_len: usize) -> Sweep {
     )
 }
 
+// (A') accept / reject one token away from longer sentences: every single-token deletion,
+// substitution and insertion applied to every sentence of a sub-grammar slice; membership of the
+// edited sequence is decided by the span recogniser over the full grammar. This reaches non-sentences
+// whose defect lies deep inside an otherwise complete tree (a stray token in a binder's domain).
+fn edited_sweep(what: &str, slice: Grammar, min_len: usize, max_len: usize) -> Sweep {
+    let full = Grammar::load();
+    let sentences = Rc::new(RefCell::new(Sentences::new(slice.clone(), min_len, max_len)));
+    let total = sentences.borrow().total;
+    let s2 = sentences.clone();
+    let slice2 = slice.clone();
+    let kinds: Vec<K> = (0..SYMS29).map(sym29).filter(|k| *k != K::LineBreak).collect();
+    Sweep::new(
+        &format!("single-token edits of sentences of {min_len}..{max_len} tokens ({what})"),
+        total,
+        move |idx| {
+            let tree = sentences.borrow_mut().tree(idx);
+            let toks = name_simple(&slice, &tree);
+            count!("evaluations");
+            count!("edited_sentences");
+            let n = toks.len();
+            let mut judge = |edited: Vec<Tok>| {
+                let ks: Vec<K> = edited.iter().map(|t| t.k).collect();
+                let is_sentence = !Recognizer::new(&full, &ks).parses().is_empty();
+                count!("edits");
+                // identifiers keep the names of the original sentence; `u` and every binder name are
+                // supplied as context so that only the grammar decides
+                match real_accepts(&edited, &["u", "x"]) {
+                    Err(_) => count!("edit_panics_left_to_C14"),
+                    Ok((acc, msgs)) => match (is_sentence, acc) {
+                        (true, true) => count!("edited_still_sentences_accepted"),
+                        (false, false) => count!("edited_nonsentences_rejected"),
+                        (true, false) => violation("sentence-rejected", &tok::layout(&edited).0, "accepted (it is a sentence of grammar.y)", &msgs.join(" | ")),
+                        (false, true) => violation(
+                            "nonsentence-accepted",
+                            &tok::layout(&edited).0,
+                            "rejected with a syntax error (not a sentence of grammar.y)",
+                            &if msgs.is_empty() { "Ok".to_owned() } else { msgs.join(" | ") },
+                        ),
+                    },
+                }
+            };
+            for p in 0..n {
+                let mut d = toks.clone();
+                d.remove(p);
+                judge(d);
+                for k in &kinds {
+                    if *k != toks[p].k {
+                        let mut s = toks.clone();
+                        s[p] = Tok::new(*k);
+                        judge(s);
+                    }
+                }
+            }
+            for p in 0..=n {
+                for k in &kinds {
+                    let mut s = toks.clone();
+                    s.insert(p, Tok::new(*k));
+                    judge(s);
+                }
+            }
+            count!("nontrivial");
+        },
+        move |idx| {
+            let tree = s2.borrow_mut().tree(idx);
+            format!("edits of: {}", tok::layout(&name_simple(&slice2, &tree)).0)
+        },
+    )
+}
+
 // The syntax tree specified for a derivation: productions -> nodes, chains to the left, parentheses
 // honoured, scope resolved against the context [u].
 pub fn expected_tree(g: &Grammar, tree: &Tree, toks: &[Tok], context: &[&str]) -> Result<M, Vec<surface::Fault>> {
@@ -299,12 +368,20 @@ impl Prop for C07 {
             v.push(tree_sweep(&format!("derivation trees, slice {name}"), sg, 7, max));
         }
         let _ = full;
+        for (name, sg) in slices(&g) {
+            let (lo, hi) = match name {
+                "binders" | "let-groups" | "let-in-binder-domain" => (7, tier.pick(9, 11)),
+                "if-let" => (7, tier.pick(9, 10)),
+                _ => continue,
+            };
+            v.push(edited_sweep(&format!("slice {name}"), sg, lo, hi));
+        }
         v
     }
     fn evidence(&self, tier: Tier) -> EvidenceSpec {
         EvidenceSpec {
             level: "exploration",
-            rule: "(A) every token sequence up to length 4/5 over the 28 token kinds plus the line-break terminator, and of length 5/6 over a 21-symbol class alphabet, is parsed by the real `parse` and must be accepted (scoping permitting) iff it is in the set of sentences enumerated from /repo/grammar.y (read at run time); (C) no two derivations enumerated from the grammar yield the same sentence; (B) for every derivation tree up to the bounds (full alphabet, class-representative alphabet, and ten sub-grammar slices that reach 9-19 tokens, one of them for all five comparison operators and both quotient and product over arithmetic operands) the real parse result must equal, node for node (variants, binder names, implicitness, literals, de Bruijn indices, hole shifts), the tree specified by the derivation with application / * / + chains folded to the left and parentheses honoured. evaluations = sequences + trees; non-trivial = accepted sentences + trees of at least 4 nodes that compared equal".to_owned(),
+            rule: "(A) every token sequence up to length 4/5 over the 28 token kinds plus the line-break terminator, and of length 5/6 over a 21-symbol class alphabet, is parsed by the real `parse` and must be accepted (scoping permitting) iff it is in the set of sentences enumerated from /repo/grammar.y (read at run time); (A') every single-token deletion, substitution and insertion (28 kinds) of every sentence of four sub-grammar slices (binders, definition groups, groups in binder domains, conditionals) of 7..9/11 tokens is accepted iff the span recogniser finds it to be a sentence; (C) no two derivations enumerated from the grammar yield the same sentence; (B) for every derivation tree up to the bounds (full alphabet, class-representative alphabet, and ten sub-grammar slices that reach 9-19 tokens, one of them for all five comparison operators and both quotient and product over arithmetic operands) the real parse result must equal, node for node (variants, binder names, implicitness, literals, de Bruijn indices, hole shifts), the tree specified by the derivation with application / * / + chains folded to the left and parentheses honoured. evaluations = sequences + trees; non-trivial = accepted sentences + trees of at least 4 nodes that compared equal".to_owned(),
             assumptions: vec![
                 "the mapping production -> syntax node and the re-association rule are transcribed from the header comment of grammar.y and the property text (engine/src/model/surface.rs)".to_owned(),
                 "a parse result consisting solely of scoping / definition-order diagnostics counts as grammatical acceptance".to_owned(),
